@@ -293,6 +293,12 @@ def Mage.tickLoop (stop : Int → Bool) (emit : Int → Stack → Stack × REv) 
       let k := Mage.tickLoop stop emit n r.1 r.2 r.1.count e.1
       (k.1, k.2.1, e.2 :: k.2.2)
 
+/-- the reachable schedulers of JupyterThunder / ThunderBreak: the pydantic constraints of `Periodic`, and a
+    running scheduler has not reached the count `D` at which the skill is switched off (it is switched off at
+    the end of the `elapse` in which it does; `use` restarts the count at 0) -/
+def Mage.LoopInv (D : Int) (per : Periodic) : Prop := per.WF ∧ (0 < per.timeLeft → per.count < D)
+instance (D : Int) (per : Periodic) : Decidable (Mage.LoopInv D per) := by unfold Mage.LoopInv; exact inferInstance
+
 /-! ### JupyterThunder (archmagetc.py) -/
 namespace JupyterThunder
 structure P where
@@ -328,6 +334,9 @@ def use (p : P) (s : S) : Except String (S × List REv) :=
   | .error e => .error e
   | .ok per => .ok ({ s with cooldown := s.cooldown.setTimeLeft p.cdEff, periodic := per }, [.delayed p.delay])
 def validity (_p : P) (s : S) : Validity := cooldownValidity s.cooldown
+/-- reachable states (checked by the driver on every harvested real state) -/
+def Inv (p : P) (s : S) : Prop := LoopInv p.maxCount s.periodic
+instance (p : P) (s : S) : Decidable (Inv p s) := by unfold Inv; exact inferInstance
 end JupyterThunder
 
 /-! ### ThunderBreak (archmagetc.py) -/
@@ -368,6 +377,9 @@ def use (p : P) (s : S) : Except String (S × List REv) :=
   | .error e => .error e
   | .ok per => .ok ({ s with cooldown := s.cooldown.setTimeLeft p.cdEff, periodic := per }, [.delayed p.delay])
 def validity (_p : P) (s : S) : Validity := cooldownValidity s.cooldown
+/-- reachable states (checked by the driver on every harvested real state) -/
+def Inv (p : P) (s : S) : Prop := LoopInv p.maxCount s.periodic
+instance (p : P) (s : S) : Decidable (Inv p s) := by unfold Inv; exact inferInstance
 end ThunderBreak
 
 /-! ### ChainLightningVIComponent (archmagetc.py) -/
